@@ -20,7 +20,7 @@ OUTSIDE = ["terms deeper than D", "addresses longer than 3"]
 def model():
     from genjax._src.core.generative import choice_map as cm
 
-    return P.Model(cm), cm
+    return P.get_model(cm), cm
 
 
 class Law:
@@ -199,7 +199,7 @@ def real_addr(m, comps, n):
 
 def eval_cex(cm, cex):
     """re-evaluate a recorded counterexample on the real classes"""
-    M = P.Model(cm)
+    M = P.get_model(cm)
     ctx = {"S": M.Sel}
     s = eval(cex["s"], {**{c: getattr(M.Sel, c) for c in P.CLASSES}})  # noqa: S307 - our own serialisation
     t = eval(cex["t"], {**{c: getattr(M.Sel, c) for c in P.CLASSES}})  # noqa: S307
